@@ -40,6 +40,20 @@ def _prep(crate):
     if os.path.exists(sh):
         shutil.rmtree(sh)
     shutil.copytree(os.path.join(VERIF, 'kani', 'shims'), sh)
+    # verbatim copy of a /repo crate's src/ with harness modules appended (registered under "copy_src")
+    for reg in REG.values():
+        if reg['crate'] == crate and reg.get('copy_src'):
+            cs = reg['copy_src']
+            srcdst = os.path.join(dst, 'src')
+            if os.path.exists(srcdst):
+                shutil.rmtree(srcdst)
+            shutil.copytree(os.path.join(REPO, cs['from'], 'src'), srcdst)
+            for rel, frm in cs.get('add_files', {}).items():
+                os.makedirs(os.path.dirname(os.path.join(dst, rel)), exist_ok=True)
+                shutil.copy(os.path.join(VERIF, 'kani', crate, frm), os.path.join(dst, rel))
+            for rel, text in cs.get('append', {}).items():
+                with open(os.path.join(dst, rel), 'a') as f:
+                    f.write('\n// ---- appended by tools/kanirun.py (harness access only)\n' + text + '\n')
     # items cut verbatim out of /repo files (registered under "extract" in harnesses.json)
     for reg in REG.values():
         if reg['crate'] == crate:
@@ -51,6 +65,8 @@ def _prep(crate):
     # path dependencies on /repo are written with the placeholder @REPO@
     for f in ('Cargo.toml', os.path.join('src', 'lib.rs')):
         ct = os.path.join(dst, f)
+        if not os.path.exists(ct):
+            continue
         s = open(ct).read().replace('@REPO@', REPO)
         open(ct, 'w').write(s)
     return dst
@@ -102,9 +118,9 @@ def replay_native(cex):
     d = _prep(cex['crate'])
     env = _env()
     env.update(cex.get('env', {}))
-    p = subprocess.run(['cargo', 'test', '--offline', cex.get('test', 'replay'), '--', '--nocapture'], cwd=d, env=env,
-                       stdout=subprocess.PIPE, stderr=subprocess.STDOUT, text=True, timeout=900)
-    failed = ('test result: FAILED' in p.stdout) or ('panicked' in p.stdout)
+    cmd = cex.get('cmd') or ['cargo', 'test', '--offline', cex.get('test', 'replay'), '--', '--nocapture']
+    p = subprocess.run(cmd, cwd=d, env=env, stdout=subprocess.PIPE, stderr=subprocess.STDOUT, text=True, timeout=900)
+    failed = p.returncode != 0
     print(p.stdout[-3000:])
     print('native replay: %s' % ('FAILS against /repo (violation reproduced)' if failed else 'passes'))
     return 0 if failed else 1
@@ -155,13 +171,15 @@ def _cex(setname, crate, h, crate_dir):
             env[var] = str(vals[e])
     cex = {'found': True, 'crate': crate, 'harness': h['name'], 'values': vals, 'env': env,
            'test': rp.get('test', 'replay'), 'kani_cmd': cmd}
+    if rp.get('cmd'):
+        cex['cmd'] = rp['cmd']
     # confirm natively
     d = _prep(crate)
     e2 = _env()
     e2.update(env)
-    p = subprocess.run(['cargo', 'test', '--offline', cex['test']], cwd=d, env=e2, stdout=subprocess.PIPE,
+    p = subprocess.run(cex.get('cmd') or ['cargo', 'test', '--offline', cex['test']], cwd=d, env=e2, stdout=subprocess.PIPE,
                        stderr=subprocess.STDOUT, text=True, timeout=900)
-    cex['native_replay_fails'] = ('test result: FAILED' in p.stdout)
+    cex['native_replay_fails'] = p.returncode != 0
     cex['native_output'] = p.stdout[-1500:]
     if not cex['native_replay_fails']:
         cex['found'] = False
